@@ -142,7 +142,9 @@ def run(ck):
                     if f["kind"] != "defun":
                         continue
                     ncomplete += 1
-                    if fname not in named.values():
+                    # functions with byte-identical code share one key (the table is keyed by code hash): the entry then
+                    # carries the name of one of them; the fixed same-code programs are covered when any of their names is
+                    if fname not in named.values() and not (prog.get("tag", "").startswith("samecode") and set(named.values()) & set(funs)):
                         direct.append({"clause": "a reachable non-inline function has no symbol entry whose code occurs in the program", "name": fname, **L.short(r, d, opt)})
     res = vlib.impl(runl, timeout_line=60)
     for (r, d, opt, name, want, av), got in zip(runm, res):
